@@ -7,6 +7,18 @@ TB = ("Trusted: Coq 8.16.1 kernel (vm_compute, no native_compute; no axioms: eve
       "sync.Pool/bufio; the translator tools/gotrans; extraction (ExtrOcamlBasic only) + ocaml/zmodel.ml; the Go harness and its "
       "blob-decoding co-process; for vectors the pure-Go stand-in engine fakefaiss. ")
 CLAIMED = {
+ "C14": ("Coq: declarative spec_search with soundness / at-most-k lemmas, vector-code round trip + translator tie (getVectorCode); correspondence (vectors build tag, stand-in engine fakefaiss): searches x exclusion x k x eligible sets x index classes vs the extracted specification with engine-computed scores, in memory and re-opened; num_vectors; engine accounting",
+         "The specification and its lemmas hold for all inputs; the correspondence runs zapx compiled with -tags vectors against a deterministic pure-Go engine and requires every result to be the true score of an admissible vector of that document, at most k, and for exact indexes exactly the k best (ties at the cut tolerated), including filter-capable handles, wrong dimensions, fields without vectors and a clustered-class index (soundness only).",
+         "real FAISS is not installable here: the engine is a stand-in satisfying the assumed contract; zapx's search logic is tied by correspondence, not by a refinement proof; eligible sets contain live documents only.", "6 C14"),
+ "C15": ("Coq: merge_vfields specification over the C05 renumbering theorem; correspondence: merge chains over segments with vector fields (fields in some inputs only, fields fully deleted, built/opened/merged inputs) searched exhaustively against the extracted specification; engine accounting",
+         "The merged, re-opened segment is searched (all k, exclusions, filters) against the extracted merge_vfields; fields whose vectors all died must have no index; num_vectors; every native index created during merges is released (stand-in engine accounting).",
+         "stand-in engine; merge logic tied by correspondence; merge histories consume each segment once (as scorch does).", "6 C15"),
+ "C16": ("Coq: C16_lifetime, C16_history_independent (all histories, idle oracle) + refutation of the pinned cache; correspondence: EVERY event sequence up to length 4 (quick) / 6 (thorough) of open/search/close/expiry-pass on an opened segment vs the extracted cache machine (live native indexes, cache entry, double close, use after close) with every search judged against the fresh-segment specification; concurrent searchers + expiry pass under the race detector",
+         "The theorems cover all histories and all eviction oracles; the enumeration (with the verif hook running expiry passes synchronously and the 1 s monitor disabled) compares the number of live native indexes and the presence of the cache entry after every event with the extracted machine, judges every search against the specification of a fresh segment, and requires nothing to remain after handles and segment are closed.",
+         "EWMA numerics are not modelled (observed idle bit as oracle); data races observed only; stand-in engine.", "6 C16"),
+ "C19": ("Coq: C19_merge_faults_surface / C19_build_faults_surface (engine-call programs with every call allowed to fail, each native index tracked: error iff a made call failed, every index closed exactly once) + refutation of the pinned build path; correspondence = fault enumeration: the n-th call of every engine operation fails, for every n, in build and merge scenarios incl. clustered indexes, vs the extracted program model (error, calls made before returning) + file absence + live-index accounting",
+         "The theorems hold for every failure oracle and every program shape; the enumeration makes each engine call of 6 scenarios fail in turn (quick strided on the large scenarios) and compares the error outcome AND the exact number of engine calls made before returning with the extracted model, requires a failed merge to leave no file and the live-index count to return to its baseline.",
+         "stand-in engine fails exactly where injected; build-side field order is Go map order (scenarios use one index class per batch).", "6 C19"),
  "C17": ("Coq: C17_ok_is_complete / C17_fail_is_error (buffered writer with sticky error, arbitrary write sequences, any limit) + footer/CRC theorems; correspondence = fault enumeration: WriteTo failing at EVERY byte offset, Persist and Merge under RLIMIT_FSIZE at flush/footer boundaries and strides (thorough: every offset) vs the extracted writer model; file absence after errors; successful outputs decoded by the extracted parser",
          "The theorems hold for every capacity, write sequence and failure offset. The correspondence injects a write failure at every offset of WriteTo's output and at dense offsets of Persist/Merge (merge buffer shrunk to 16-100 bytes), compares error/no-error and bytes accepted with the extracted model fed with the recorded write sizes, requires the path to be absent after every error and the file to decode to the expected content after every success.",
          "fsync/close failures cannot be injected; cleanup-on-every-error-path is established by enumeration, not by a structural proof (skeleton stage, DESIGN.md 4.3).", "6 C17"),
